@@ -103,7 +103,6 @@ theorem AccOn.cons {cx : Ctx} {F : EFrame} {e : Ev} {l : List Ev} (he : AccOn cx
 theorem AccOn_closed (cx : Ctx) (F : EFrame) : RawClosedX (AccOn cx F) where
   nil := AccOn.nil cx F
   app := AccOn.app
-  raise := fun _ _ => AccOn.neutral cx F rfl
   scope := by
     intro l d o ho h
     have hs : AccOn cx F [Ev.sctor d] := AccOn.neutral cx F rfl
@@ -143,7 +142,7 @@ theorem nodeCore_switch {cx : Ctx} {rec : Rec} (hrec : ERec cx rec) (k i : Nat) 
     (h : nodeCore cx rec k i nd a m env st = some r) : AccOn cx F r.raw := by
   have hb : ∀ mm r1, body cx rec k nd.kind a mm env st = some r1 → AccOn cx F r1.raw := by
     intro mm r1 h1
-    refine body_rawX (AccOn_closed cx F) cx k nd.kind a mm env ?_ st r1 h1
+    refine body_rawX (AccOn_closed cx F) cx k nd.kind a mm env ?_ (fun _ _ _ => AccOn.neutral cx F rfl) st r1 h1
     intro j _ m' st' r' hr'
     exact hrec j _ m' _ st' r' hr' F hA hF
   unfold nodeCore at h
